@@ -625,6 +625,252 @@ static std::string op_light(bool hist, const std::string& hexprog, const std::st
     return out;
 }
 
+static std::vector<std::string> splitc(const std::string& s, char sep)
+{
+    std::vector<std::string> out;
+    std::stringstream ss(s);
+    std::string tok;
+    while (std::getline(ss, tok, sep)) {
+        out.push_back(tok);
+    }
+    return out;
+}
+
+static sb_vector3_with_yaw_t vec_of(const std::string& x, const std::string& y, const std::string& z, const std::string& w)
+{
+    sb_vector3_with_yaw_t v;
+    v.x = f_of_hex(x);
+    v.y = f_of_hex(y);
+    v.z = f_of_hex(z);
+    v.yaw = f_of_hex(w);
+    return v;
+}
+
+// positions of a trajectory at the given times (ms): (float)ms / 1000.0f, fresh player each
+static std::string probe_positions(sb_trajectory_t* tr, const std::vector<unsigned long>& marks)
+{
+    std::string out;
+    for (unsigned long ms : marks) {
+        sb_trajectory_player_t pl;
+        sb_vector3_with_yaw_t v;
+        sb_error_t e = sb_trajectory_player_init(&pl, tr);
+        if (e == SB_SUCCESS) {
+            e = sb_trajectory_player_get_position_at(&pl, (float)ms / 1000.0f, &v);
+            sb_trajectory_player_destroy(&pl);
+        }
+        out += " P:" + code(e);
+        if (e == SB_SUCCESS) {
+            out += ":" + vec4hex(v);
+        }
+    }
+    return out;
+}
+
+// build <scale> <flags> <calls ;-separated>
+static std::string op_build(const std::vector<std::string>& w)
+{
+    sb_trajectory_builder_t b;
+    sb_error_t e = sb_trajectory_builder_init(&b, (uint8_t)atoi(w[1].c_str()), (uint8_t)atoi(w[2].c_str()));
+    if (e != SB_SUCCESS) {
+        return "init:" + code(e);
+    }
+    std::string out = "init:0";
+    unsigned long cum = 0;
+    std::vector<unsigned long> marks;
+    for (const std::string& call : splitc(w[3], ';')) {
+        std::vector<std::string> f = splitc(call, ':');
+        if (f[0] == "S" && f.size() == 5) {
+            e = sb_trajectory_builder_set_start_position(&b, vec_of(f[1], f[2], f[3], f[4]));
+            out += " S:" + code(e) + ":" + U(sb_buffer_size(&b.buffer));
+        } else if (f[0] == "L" && f.size() == 6) {
+            unsigned long d = strtoul(f[5].c_str(), 0, 10);
+            e = sb_trajectory_builder_append_line(&b, vec_of(f[1], f[2], f[3], f[4]), (uint32_t)d);
+            out += " L:" + code(e) + ":" + U(sb_buffer_size(&b.buffer));
+            if (e == SB_SUCCESS) {
+                cum += d;
+                marks.push_back(cum);
+            }
+        } else if (f[0] == "H" && f.size() == 2) {
+            unsigned long d = strtoul(f[1].c_str(), 0, 10);
+            e = sb_trajectory_builder_hold_position_for(&b, (uint32_t)d);
+            out += " H:" + code(e) + ":" + U(sb_buffer_size(&b.buffer));
+            if (e == SB_SUCCESS) {
+                cum += d;
+                marks.push_back(cum);
+            }
+        } else if (f[0] == "F") {
+            sb_trajectory_t tr;
+            e = sb_trajectory_init_from_builder(&tr, &b);
+            out += " F:" + code(e);
+            if (e == SB_SUCCESS) {
+                out += ":" + hex(SB_BUFFER(tr.buffer), sb_buffer_size(&tr.buffer));
+                out += probe_positions(&tr, marks);
+                sb_trajectory_destroy(&tr);
+            }
+            cum = 0;
+            marks.clear();
+        } else {
+            out += " ?" + call;
+        }
+    }
+    out += " buf:" + hex(SB_BUFFER(b.buffer), sb_buffer_size(&b.buffer));
+    sb_trajectory_builder_destroy(&b);
+    return out;
+}
+
+// rth2traj time action dur tx ty alt pre post neck neckd sx sy sz sw probes(ms csv)
+static std::string op_rth2traj(const std::vector<std::string>& w)
+{
+    sb_rth_plan_entry_t en;
+    memset(&en, 0, sizeof en);
+    en.time_sec = f_of_hex(w[1]);
+    en.action = (sb_rth_action_t)atoi(w[2].c_str());
+    en.duration_sec = f_of_hex(w[3]);
+    en.target.x = f_of_hex(w[4]);
+    en.target.y = f_of_hex(w[5]);
+    en.target_altitude = f_of_hex(w[6]);
+    en.pre_delay_sec = f_of_hex(w[7]);
+    en.post_delay_sec = f_of_hex(w[8]);
+    en.pre_neck_mm = f_of_hex(w[9]);
+    en.pre_neck_duration_sec = f_of_hex(w[10]);
+    sb_vector3_with_yaw_t start = vec_of(w[11], w[12], w[13], w[14]);
+    sb_trajectory_t tr;
+    sb_error_t e = sb_trajectory_init_from_rth_plan_entry(&tr, &en, start);
+    if (e != SB_SUCCESS) {
+        return code(e);
+    }
+    std::string out = "ok:" + hex(SB_BUFFER(tr.buffer), sb_buffer_size(&tr.buffer));
+    out += " dur=" + U(sb_trajectory_get_total_duration_msec(&tr));
+    std::vector<unsigned long> marks;
+    for (const std::string& t : csv(w[15])) {
+        marks.push_back(strtoul(t.c_str(), 0, 10));
+    }
+    out += probe_positions(&tr, marks);
+    sb_trajectory_destroy(&tr);
+    return out;
+}
+
+static std::string fnumhex(float f) { return fhex(f); }
+
+static std::string op_util(const std::vector<std::string>& w)
+{
+    const std::string& k = w[1];
+    if (k == "travel") {
+        return fnumhex(sb_get_travel_time_for_distance(f_of_hex(w[2]), f_of_hex(w[3]), f_of_hex(w[4])));
+    }
+    if (k == "scale") {
+        uint8_t sc = (uint8_t)atoi(w[2].c_str());
+        sb_vector3_with_yaw_t v = vec_of(w[3], w[4], w[5], "00000000");
+        sb_error_t e = sb_scale_update_vector3_with_yaw(&sc, v);
+        return e == SB_SUCCESS ? S(sc) : code(e);
+    }
+    if (k == "msec") {
+        uint32_t r = 0;
+        sb_error_t e = sb_uint32_msec_duration_from_float_seconds(&r, f_of_hex(w[2]));
+        return e == SB_SUCCESS ? U(r) : code(e);
+    }
+    if (k == "expand") {
+        sb_interval_t iv;
+        iv.min = f_of_hex(w[2]);
+        iv.max = f_of_hex(w[3]);
+        sb_interval_expand(&iv, f_of_hex(w[4]));
+        return fhex(iv.min) + "," + fhex(iv.max);
+    }
+    if (k == "interp") {
+        sb_rgb_color_t a = sb_rgb_color_make((uint8_t)atoi(w[2].c_str()), (uint8_t)atoi(w[3].c_str()), (uint8_t)atoi(w[4].c_str()));
+        sb_rgb_color_t b = sb_rgb_color_make((uint8_t)atoi(w[5].c_str()), (uint8_t)atoi(w[6].c_str()), (uint8_t)atoi(w[7].c_str()));
+        sb_rgb_color_t c = sb_rgb_color_linear_interpolation(a, b, f_of_hex(w[8]));
+        return S(c.red) + "," + S(c.green) + "," + S(c.blue);
+    }
+    if (k == "rgbw") {
+        sb_rgb_color_t c = sb_rgb_color_make((uint8_t)atoi(w[3].c_str()), (uint8_t)atoi(w[4].c_str()), (uint8_t)atoi(w[5].c_str()));
+        sb_rgbw_conversion_t conv;
+        memset(&conv, 0, sizeof conv);
+        if (w[2] == "min") {
+            sb_rgbw_conversion_use_min_subtraction(&conv);
+        } else if (w[2] == "fixed") {
+            sb_rgbw_conversion_use_fixed_value(&conv, (uint8_t)atoi(w[6].c_str()));
+        } else {
+            sb_rgbw_conversion_use_reference_color(&conv, sb_rgb_color_make((uint8_t)atoi(w[6].c_str()), (uint8_t)atoi(w[7].c_str()), (uint8_t)atoi(w[8].c_str())));
+        }
+        sb_rgbw_color_t o = sb_rgb_color_to_rgbw(c, conv);
+        return S(o.red) + "," + S(o.green) + "," + S(o.blue) + "," + S(o.white);
+    }
+    if (k == "buf") {
+        sb_buffer_t b;
+        sb_error_t e = SB_SUCCESS;
+        std::vector<uint8_t> init;
+        uint8_t* owned_copy = 0;
+        Guarded* view = 0;
+        if (w[2] == "init") {
+            e = sb_buffer_init(&b, strtoul(w[3].c_str(), 0, 10));
+        } else if (w[2] == "bytes") {
+            init = unhex(w[3]);
+            owned_copy = (uint8_t*)malloc(init.size() ? init.size() : 1);
+            memcpy(owned_copy, init.data(), init.size());
+            e = sb_buffer_init_from_bytes(&b, owned_copy, init.size());
+            if (e != SB_SUCCESS) {
+                free(owned_copy);
+            }
+        } else {
+            init = unhex(w[3]);
+            view = new Guarded(init);
+            sb_buffer_init_view(&b, view->ptr, view->n);
+        }
+        if (e != SB_SUCCESS) {
+            return "init:" + code(e);
+        }
+        auto st = [&]() { return U(sb_buffer_size(&b)) + "/" + U(sb_buffer_capacity(&b)); };
+        std::string out = "init:0:" + st();
+        for (const std::string& op : csv(w[4])) {
+            if (op.empty() || op == "-") {
+                continue;
+            }
+            std::string arg = op.substr(1);
+            sb_error_t r = SB_SUCCESS;
+            switch (op[0]) {
+            case 'a': {
+                std::vector<uint8_t> d = unhex(arg);
+                r = sb_buffer_append_bytes(&b, d.data(), d.size());
+                break;
+            }
+            case 'z':
+                r = sb_buffer_extend_with_zeros(&b, strtoul(arg.c_str(), 0, 10));
+                break;
+            case 'r':
+                r = sb_buffer_resize(&b, strtoul(arg.c_str(), 0, 10));
+                break;
+            case 'c':
+                r = sb_buffer_clear(&b);
+                break;
+            case 'p':
+                r = sb_buffer_prune(&b);
+                break;
+            default:
+                sb_buffer_fill(&b, (uint8_t)atoi(arg.c_str()));
+            }
+            out += std::string(" ") + op[0] + ":" + code(r) + ":" + st();
+        }
+        out += " data:" + hex(SB_BUFFER(b), sb_buffer_size(&b));
+        sb_buffer_destroy(&b);
+        if (view) {
+            delete view;
+        }
+        return out;
+    }
+    if (k == "fop") {
+        volatile float a = f_of_hex(w[3]), b = f_of_hex(w[4]);
+        volatile float r;
+        if (w[2] == "add") r = a + b;
+        else if (w[2] == "sub") r = a - b;
+        else if (w[2] == "mul") r = a * b;
+        else if (w[2] == "div") r = a / b;
+        else r = sqrtf(a);
+        return fhex(r);
+    }
+    return "bad-args";
+}
+
 static std::string op_crc(const std::vector<std::string>& w)
 {
     // crc <init> <hex> <split points, csv or ->: successive calls on the pieces
@@ -670,6 +916,15 @@ static std::string run_case(const std::vector<std::string>& w)
     }
     if (op == "file") {
         return op_file(w);
+    }
+    if (op == "build") {
+        return op_build(w);
+    }
+    if (op == "rth2traj") {
+        return op_rth2traj(w);
+    }
+    if (op == "util") {
+        return op_util(w);
     }
     if (op == "light") {
         return op_light(w[1] == "h", w[2], w[3]);
